@@ -44,8 +44,8 @@ def _span_in_file(sp, fname):
     return None
 
 
-def weave_group(group, repo, outdir, extras=(), bare=(), drop_aids=None):
-    w = Weaver(repo).weave(group, extras=extras, bare=bare, drop_aids=drop_aids)
+def weave_group(group, repo, outdir, extras=(), bare=(), drop_aids=None, nodecr=()):
+    w = Weaver(repo).weave(group, extras=extras, bare=bare, drop_aids=drop_aids, nodecr=nodecr)
     os.makedirs(outdir, exist_ok=True)
     out = os.path.join(outdir, group + '.rs')
     open(out, 'w').write('\n'.join(w.lines) + '\n')
@@ -240,10 +240,16 @@ def run_group(group, repo='/repo', outdir=None, seed=0, rlimit=None, extra_args=
     drop = {}
     helper_callers = {}
     res = None
-    for _round in range(8):
-        res = _run_group(group, repo, outdir, seed, rlimit, extra_args, log_air, timeout, extras, bare, drop)
+    nodecr = []
+    for _round in range(10):
+        res = _run_group(group, repo, outdir, seed, rlimit, extra_args, log_air, timeout, extras, bare, drop, nodecr)
         if res['status'] != 'undecided' or not res.get('undecided'):
             break
+        # a loop without decreases clause aborts Verus for the whole file: waive termination for that unit only (it becomes undecided)
+        nd = sorted(set(u['unit'] for u in res['undecided'] if u.get('unit') and 'loop must have a decreases clause' in u.get('message', '') and u['unit'] not in nodecr))
+        if nd:
+            nodecr += nd
+            continue
         new = find_missing_helpers(res, repo, extras, helper_callers)
         if new:
             extras += new
@@ -283,6 +289,8 @@ def run_group(group, repo='/repo', outdir=None, seed=0, rlimit=None, extra_args=
             why.append('proof aid dropped (no longer type-checks): ' + '; '.join(map(str, u['dropped_aids'][:3])))
         if u['unit'] in bare:
             why.append('all proof aids dropped')
+        if u['unit'] in nodecr:
+            why.append('a loop of the changed code has no decreases clause / invariant (termination not checked)')
         if u['unit'].startswith('auto.'):
             why.append('function without contract (extracted automatically because contracted code calls it)')
         if u['unit'] in helper_callers:
@@ -290,6 +298,10 @@ def run_group(group, repo='/repo', outdir=None, seed=0, rlimit=None, extra_args=
         # (a substitution whose source text is gone is not a missing proof aid: if the code still needs it, rustc / Verus reject the unit)
         if why:
             compromised[u['unit']] = '; '.join(why)
+    if nodecr and res['status'] == 'ok':
+        res['status'] = 'undecided'
+        res['reason'] = 'loop without decreases clause in %s: termination not checked' % ', '.join(nodecr)
+        res.setdefault('undecided', []).append(dict(message=res['reason'], code=None, unit=nodecr[0], src=None, rendered='', woven_line=None))
     if compromised:
         keep = []
         for c in res.get('diags', []):
@@ -344,12 +356,12 @@ def find_missing_helpers(res, repo, have, callers=None):
     return out
 
 
-def _run_group(group, repo, outdir, seed, rlimit, extra_args, log_air, timeout, extras, bare=(), drop=None):
+def _run_group(group, repo, outdir, seed, rlimit, extra_args, log_air, timeout, extras, bare=(), drop=None, nodecr=()):
     outdir = outdir or os.environ.get('VERIF_BUILD') or os.path.join(VERIF, 'build')
     t0 = time.time()
     res = dict(group=group, status='ok', reason=None, diags=[], undecided=[], units=[], obligations={}, time_s=0.0)
     try:
-        path, mp, lines = weave_group(group, repo, outdir, extras=extras, bare=bare, drop_aids=drop)
+        path, mp, lines = weave_group(group, repo, outdir, extras=extras, bare=bare, drop_aids=drop, nodecr=nodecr)
     except SliceError as e:
         res.update(status='undecided', reason='anchor: %s' % e)
         return res
